@@ -816,8 +816,74 @@ func checkTokenTables(c *Ctx, m *cfgModel, rule string) {
 			}
 		}
 	}
+	stdQuote := ""
+	if quoteFn == nil {
+		// the quoting function by use: the string->string function every spelling function ((string, bool) -> string)
+		// calls on its value parameter; it may delegate to the standard library
+		counts := map[*types.Func]int{}
+		for obj, fd := range m.decls {
+			sig := obj.Type().(*types.Signature)
+			if sig.Recv() != nil || sig.Params().Len() != 2 || sig.Results().Len() != 1 || !isStringT(sig.Params().At(0).Type()) || !isStringT(sig.Results().At(0).Type()) {
+				continue
+			}
+			ast.Inspect(fd.Body, func(n ast.Node) bool {
+				if ce, ok := n.(*ast.CallExpr); ok {
+					if fn, _, _ := m.callee(ce); fn != nil && m.decls[fn] != nil {
+						fs := fn.Type().(*types.Signature)
+						if fs.Recv() == nil && fs.Params().Len() == 1 && fs.Results().Len() == 1 && isStringT(fs.Params().At(0).Type()) && isStringT(fs.Results().At(0).Type()) {
+							counts[fn]++
+						}
+					}
+				}
+				return true
+			})
+		}
+		for fn, n := range counts {
+			if n >= 2 && (quoteFn == nil || n > counts[quoteFn]) {
+				quoteFn = fn
+			}
+		}
+		if quoteFn != nil {
+			ast.Inspect(m.decls[quoteFn].Body, func(n ast.Node) bool {
+				if ce, ok := n.(*ast.CallExpr); ok {
+					if fn, _, _ := m.callee(ce); fn != nil && fn.Pkg() != nil && fn.Pkg().Path() == "strconv" && strings.HasPrefix(fn.Name(), "Quote") {
+						stdQuote = "strconv." + fn.Name()
+					}
+				}
+				return true
+			})
+			if stdQuote == "" {
+				c.Undecided(rule, quoteFn.Name()+":escape table", p.Pos(m.decls[quoteFn].Pos()), "the quoting function has no rune switch writing backslash escapes and does not delegate to strconv.Quote*: its escape table cannot be read")
+				return
+			}
+		}
+	}
 	if quoteFn == nil || lexStr == nil || lexIdent == nil {
 		c.Undecided(rule, "roles", "", fmt.Sprintf("quoting function %v, string lexer %v, identifier lexer %v", quoteFn != nil, lexStr != nil, lexIdent != nil))
+		return
+	}
+	if stdQuote != "" {
+		// Go string-literal escapes written by strconv.Quote*: the lexer must decode each of them
+		goEscapes := []string{`\a`, `\b`, `\f`, `\n`, `\r`, `\t`, `\v`, `\\`, `\"`, `\xNN`, `\uNNNN`, `\UNNNNNNNN`}
+		decoded := map[string]bool{}
+		for _, rc := range m.runeSwitches(m.decls[lexStr].Body) {
+			for _, r := range rc.runes {
+				decoded[string(r)] = true
+			}
+		}
+		var missing []string
+		for _, e := range goEscapes {
+			code := string(e[1])
+			// the lexer's clauses decode n, t, r to the control characters and keep \ and " as themselves;
+			// any other letter is kept as the letter (not the rune strconv meant)
+			ok := decoded[code] && (code == "n" || code == "t" || code == "r" || code == `\` || code == `"`)
+			if !ok {
+				missing = append(missing, e)
+			}
+		}
+		c.Check(len(missing) == 0, rule, quoteFn.Name()+":escapes written by "+stdQuote+" are decoded by the lexer", p.Pos(m.decls[quoteFn].Pos()),
+			"every Go escape has a decoding clause",
+			"the quoting function delegates to "+stdQuote+", which writes "+strings.Join(missing, " ")+" for non-printing runes; the string lexer ("+lexStr.Name()+") has no clause for them and keeps the letter, so such a value is rewritten to a different one")
 		return
 	}
 	c.Note("C19.R3 roles: quoting function %s, string lexer lexer.%s, identifier lexer lexer.%s", quoteFn.Name(), lexStr.Name(), lexIdent.Name())
